@@ -8,6 +8,9 @@ START = 'rnbqkbnr/pppppppp/8/8/8/8/PPPPPPPP/RNBQKBNR w KQkq - 0 1'
 
 CORPUS_FENS = [
     START,
+    # castling that gives check / mate (the text carries '+' / '#' after O-O / O-O-O), both castles legal or only one
+    '3k4/8/8/8/8/8/8/R3K2R w KQ - 0 1', '2rkr3/2p1p3/8/8/8/8/8/R3K3 w Q - 0 1', 'r3k2r/8/8/8/8/8/8/3K4 b kq - 0 1',
+    '5k2/8/8/8/8/8/8/R3K2R w KQ - 0 1', 'r3k2r/8/8/8/8/8/8/5K2 b kq - 0 1', 'r3k3/8/8/8/8/8/2P1P3/2RKR3 b q - 0 1',
     'r3k2r/p1ppqpb1/bn2pnp1/3PN3/1p2P3/2N2Q1p/PPPBBPPP/R3K2R w KQkq - 0 1',
     '8/2p5/3p4/KP5r/1R3p1k/8/4P1P1/8 w - - 0 1',
     'r3k2r/Pppp1ppp/1b3nbN/nP6/BBP1P3/q4N2/Pp1P2PP/R2Q1RK1 w kq - 0 1',
@@ -150,6 +153,31 @@ def exhaustive_3man(kind, turn):
                 out.append(fen_from_map({a: 'K', b: 'k', c: kind}, turn))
     return out
 
+def ep_family():
+    """every en-passant situation by colour, target file and which neighbours can capture (left only, right only, both, none):
+    kings g1/g8, the pawn that has just made its double step, and the capturing pawns beside it"""
+    out = []
+    for stm in 'wb':
+        for f in range(8):
+            for caps in ((-1,), (1,), (-1, 1), ()):
+                if any(not 0 <= f + d <= 7 for d in caps):
+                    continue
+                m = {6: 'K', 62: 'k'}
+                if stm == 'w':      # Black has just played f7-f5: target on rank 6, White captures from rank 5
+                    m[32 + f] = 'p'
+                    for d in caps: m[32 + f + d] = 'P'
+                    target = 'abcdefgh'[f] + '6'
+                else:               # White has just played f2-f4: target on rank 3, Black captures from rank 4
+                    m[24 + f] = 'P'
+                    for d in caps: m[24 + f + d] = 'p'
+                    target = 'abcdefgh'[f] + '3'
+                if len(set(m)) != len(m):
+                    continue
+                fen = fen_from_map(m, stm)
+                p = fen.split(' ')
+                out.append(' '.join([p[0], p[1], '-', target, '0', '1']))
+    return out
+
 def positions(seed, tier, tag, n_playouts=None, plies=None, n_small=None):
     """the standard mixed position stream: corpus, playouts, small families, random placements (all LegalPos)"""
     rnd = random.Random(seed)
@@ -157,7 +185,7 @@ def positions(seed, tier, tag, n_playouts=None, plies=None, n_small=None):
     n_playouts = n_playouts if n_playouts is not None else (48 if quick else 600)
     plies = plies if plies is not None else (60 if quick else 200)
     n_small = n_small if n_small is not None else (300 if quick else 6000)
-    pos = list(corpus())
+    pos = list(corpus()) + ep_family()
     pos += playout_positions(rnd.randrange(1 << 30), n_playouts, plies, tag=tag + '-po')
     fam = []
     for extra in ['Q', 'R', 'P', 'p', 'B', 'N', 'QR', 'Pp', 'RP', 'qP', 'NBp', 'RRq', 'PPpp']:
